@@ -282,6 +282,27 @@ func c09Run(c *fw.Ctx, b fw.Batch) {
 				}
 			}
 		}
+	case "structural-strings":
+		// strings that consist of structural characters, as keys and values, in every small
+		// template, closed by every closer (a parser that keeps brackets and keys in one
+		// stack must not confuse the key "[" with an open array)
+		strs := []string{`"["`, `"{"`, `"]"`, `"}"`, `","`, `":"`, `"[["`, `"{\"a\":"`, `"\\"`, `"\""`, `"[a"`, `"a["`, `""`}
+		closers := []string{"]", "}", "", "]]", "}}", "]}", "}]", ",", "]\n", "} "}
+		tmpls := []string{`{S:1X`, `{"a":{S:nullX}`, `{"a":{S:nullX`, `[SX`, `[{S:1X,`, `[{S:1X]`, `{S:[1X}`, `{S:[1X`, `{"type":"Feature",S:0X`, `{S:{S:SX}`, `[S,SX`, `{"k":[S,{S:SX]}`}
+		for _, t := range tmpls {
+			for _, s1 := range strs {
+				for _, x1 := range closers {
+					x := []byte(strings.ReplaceAll(strings.ReplaceAll(t, "S", s1), "X", x1))
+					for _, l := range []uint32{0, uint32(len(x)), uint32(len(x) + 1), 3072, uint32(len(x) - 1)} {
+						if l == 0 && len(x) == 0 {
+							continue
+						}
+						c09Judge(c, "structural-strings", x, l, false)
+					}
+					c.Count("structural_string_documents", 1)
+				}
+			}
+		}
 	case "mutate":
 		r := c.Rand
 		for i := 0; i < b.N; i++ {
@@ -353,6 +374,7 @@ func init() {
 				nm = 400000
 			}
 			bs = append(bs, batches("mutate", 8, nm, 1800)...)
+			bs = append(bs, batches("structural-strings", 1, 0, 1800)...)
 			bs = append(bs, batches("deep", 1, 0, 1800)...)
 			bs = append(bs, batches("affix", 1, 0, 1800)...)
 			bs = append(bs, batches("huge", 1, 0, 1800)...)
